@@ -1,5 +1,7 @@
 import IndicatifModel.Model.StyleBuilder
 import IndicatifModel.Proofs.GenBridgeFmt
+import IndicatifModel.Proofs.GenBridgeGeo
+import IndicatifModel.Proofs.BarGeoBasic
 /-!
 # C14 — Every style the builder accepts can be rendered without panicking
 -/
@@ -105,5 +107,55 @@ theorem C14_source_defaults :
     ({} : Style).tickN = Generated.defaultTickChars.length ∧ ({} : Style).progWidths.length = Generated.defaultProgressChars.length ∧
     2 ≤ Generated.defaultTickChars.length ∧ 2 ≤ Generated.defaultProgressChars.length :=
   ⟨GenBridge.defaults_eq.2.2.1, GenBridge.defaults_eq.2.2.2, by decide, by decide⟩
+
+/-- **the source as translated: what the builders assert is what the renderer needs.** The assertions of `tick_chars`,
+`tick_strings` and `progress_chars`, the index computations of `get_tick_str` / `get_final_tick_str` and the arithmetic of
+`format_bar` are translated from `src/style.rs` on every run (`none` = panic). For every number of tick strings and progress
+characters and every common width that the builders accept: the tick index exists for every tick count, the final tick index
+exists, `format_bar` does not panic for any fraction and width over any arithmetic, and the partial cell it selects is one of the
+configured characters. And the model's builder (`build SFix.current`) accepts exactly what the translated assertions accept. -/
+theorem C14_source_accepted_styles_render (nticks nchars cw : Nat)
+    (ht : Generated.tickCharsAccepts nticks ∨ Generated.tickStringsAccepts nticks) (hp : Generated.progressCharsAccepts nchars cw) :
+    (∀ idx, (Generated.tickIndex nticks idx).isSome = true ∧ ∀ i, Generated.tickIndex nticks idx = some i → i < nticks) ∧
+    ((Generated.finalTickIndex nticks).isSome = true) ∧
+    (∀ {α : Type} (A : BarGeo.Arith α) (fract : α) (width : Nat),
+      (Generated.formatBar A fract width cw nchars).isSome = true ∧
+      ∀ f c b, Generated.formatBar A fract width cw nchars = some (f, some c, b) → c < nchars) := by
+  have hn : 2 ≤ nticks := by rcases ht with h | h <;> exact h
+  obtain ⟨hc2, hcw⟩ := hp
+  refine ⟨fun idx => ?_, ?_, fun A fract width => ?_⟩
+  · have hlt : idx % (nticks - 1) < nticks := by
+      have := Nat.mod_lt idx (show 0 < nticks - 1 by omega); omega
+    have hg : 1 ≤ nticks ∧ 0 < nticks - 1 ∧ idx % (nticks - 1) < nticks := ⟨by omega, by omega, hlt⟩
+    simp only [Generated.tickIndex, hg, and_self, if_true, Option.isSome_some, true_and]
+    intro i hi; injection hi with hi; omega
+  · have hg : 1 ≤ nticks ∧ nticks - 1 < nticks := ⟨by omega, by omega⟩
+    simp only [Generated.finalTickIndex, hg, and_self, if_true, Option.isSome_some]
+  · rw [GenBridge.gen_formatBar A fract width cw nchars hcw]
+    refine ⟨rfl, fun f c b h => ?_⟩
+    simp only [Option.some.injEq, Prod.mk.injEq] at h
+    have := BarGeo.C13_cur_in_range A fract width cw nchars c hc2 h.2.1
+    omega
+
+theorem C14_source_builder_accepts (s : Style) (n : Nat) (ws : List Nat) (w : Nat) (hws : ∀ x ∈ ws, x = w) (hne : ws ≠ []) :
+    ((build SFix.current s (.tickChars n)).isSome = true ↔ Generated.tickCharsAccepts n) ∧
+    ((build SFix.current s (.tickStrings n)).isSome = true ↔ Generated.tickStringsAccepts n) ∧
+    ((build SFix.current s (.progressChars ws)).isSome = true ↔ Generated.progressCharsAccepts ws.length w) := by
+  refine ⟨?_, ?_, ?_⟩
+  · simp only [build, Generated.tickCharsAccepts]; split <;> simp_all
+  · simp only [build, SFix.current, if_true, Generated.tickStringsAccepts]; split <;> simp_all
+  · cases ws with
+    | nil => exact absurd rfl hne
+    | cons x rest =>
+      have hx : x = w := hws x (by simp)
+      have hall : rest.all (· == x) = true := by
+        rw [List.all_eq_true]; intro y hy; simp [hws y (by simp [hy]), hx]
+      simp only [build, SFix.current, Generated.progressCharsAccepts, List.length_cons, hall, if_true, Bool.true_and]
+      subst hx
+      by_cases h2 : rest.length + 1 < 2
+      · simp [h2]; omega
+      · by_cases h0 : x = 0
+        · simp [h2, h0]
+        · simp [h2, h0]; omega
 
 end IndicatifModel.StyleBuilder
